@@ -243,9 +243,24 @@ def check_stale(ctx, prop):
 
 
 def split_trace(ctx, trace, chunk):
-    """large traces are validated in chunks (the monitor holds a whole chunk in memory)"""
+    """large traces are validated in chunks (the monitor holds a whole chunk in memory).  Histories whose OBSERVATION
+    (==, cmp, hash, formatting of the value a step produced) panicked carry no observations to validate: each is a violation
+    by itself and is taken out of the trace here."""
     lines = open(trace).read().split("\n")
     lines = [l for l in lines if l]
+    if any('"obsfault"' in l for l in lines):
+        keep = []
+        for l in lines:
+            if '"obsfault"' in l:
+                e = json.loads(l)
+                ctx.violations.append(({"op": "observe", "pool": e.get("pool"), "nr": e.get("nr"), "steps": e.get("steps"), "msg": e["obsfault"][:300]},
+                                       "observation-panicked", "native"))
+            else:
+                keep.append(l)
+        lines = keep
+        open(trace, "w").write("\n".join(lines) + ("\n" if lines else ""))
+        if not lines:
+            return []
     if len(lines) <= chunk:
         return [trace]
     out = []
